@@ -58,11 +58,24 @@ func vfEvalChain(in []*big.Int) ([]*big.Int, []*big.Int) {
 	var configs [][]byte
 	pick := 0
 	for i := 0; i < n; i++ {
-		pt, vt, np := d.Int(), d.Int(), d.Int()
+		pt, vt, np, bwin := d.Int(), d.Int(), d.Int(), d.Int()
 		m := map[string]interface{}{"marker": i, "cniVersion": "0.3.1", "name": "x"}
 		switch pt {
 		case 0:
 			m["type"] = "terway"
+			// a bandwidth_mode already present in the input (a hand-written entry, or a generated list fed back)
+			switch bwin {
+			case 1:
+				m["bandwidth_mode"] = "edt"
+			case 2:
+				m["bandwidth_mode"] = "tc"
+			case 3:
+				m["bandwidth_mode"] = []string{"EDT", "htb", " edt", "none"}[i%4]
+			case 4:
+				m["bandwidth_mode"] = 7
+			case 5:
+				m["bandwidth_mode"] = ""
+			}
 			if vt != 0 {
 				vs := vfVtypes[vt]
 				m["eniip_virtual_type"] = vs[(pick+i)%len(vs)]
@@ -177,7 +190,11 @@ func vfGenChain(r *vfRand) [][]*big.Int {
 			if r.Chance(2, 3) {
 				npp = r.Intn(3)
 			}
-			b.I(pt, vt, npp)
+			bwin := 0
+			if pt == 0 && r.Chance(2, 5) {
+				bwin = 1 + r.Intn(5)
+			}
+			b.I(pt, vt, npp, bwin)
 		}
 		cs = append(cs, b.L)
 	}
